@@ -71,6 +71,7 @@ type replayRecipe struct {
 	streamPrefix string
 	password bool // run with a configured password (gate scenarios)
 	msgBytes bool // the request is an unknown command whose name is the model's msg.bytes
+	alsoRoundTrip bool // when the stream replay does not misbehave, run the round-trip portfolio too
 }
 
 var helperCommands = map[string][2]string{
@@ -106,8 +107,13 @@ func recipeFor(p *Program, o *Obligation) *replayRecipe {
 			"proto.(*Parser).Next": "", "proto.(*Parser).nextLineBytes": "+", "proto.(*Parser).nextBulkMessage": "$",
 			"proto.(*Parser).nextArrayMessage": "*", "proto.newArrayWithParser": "*", "proto.(*Parser).nextLengthBytes": "$NUM",
 		}
+		if strings.Contains(o.Name, "{C01") || strings.Contains(o.Name, "C01}") || strings.Contains(o.Name, "C01,") || strings.Contains(o.Name, ",C01") || strings.HasPrefix(key, "proto.verifRoundTrip") {
+			if (key == "proto.(*Message).RESPBytes" || key == "proto.(*Array).RESPBytes" || strings.HasPrefix(key, "proto.verifRoundTrip")) && !strings.Contains(o.Name, "C04") {
+				return &replayRecipe{kind: "roundtrip", pkgDir: "./redis/proto", tmpl: "roundtrip_replay_test.go.txt"}
+			}
+		}
 		if sp, ok := pre[key]; ok {
-			return &replayRecipe{kind: "stream", pkgDir: "./redis/proto", tmpl: "proto_replay_test.go.txt", streamPrefix: sp}
+			return &replayRecipe{kind: "stream", pkgDir: "./redis/proto", tmpl: "proto_replay_test.go.txt", streamPrefix: sp, alsoRoundTrip: true}
 		}
 		if key == "proto.(*Message).RESPBytes" || key == "proto.(*Array).RESPBytes" {
 			// the serializer is reached with client bytes through the error reply for an unknown command name
@@ -120,6 +126,9 @@ func recipeFor(p *Program, o *Obligation) *replayRecipe {
 	}
 	if key == "redis.nextScanArgument" && strings.Contains(o.Name, "C17") {
 		return &replayRecipe{kind: "glob", pkgDir: "./redis", tmpl: "globscan_replay_test.go.txt"}
+	}
+	if fn.Pkg != nil && fn.Pkg.Pkg.Name() == "server" && (key == "server.(*Server).Keys" || key == "server.(*Server).Scan") {
+		return &replayRecipe{kind: "glob", pkgDir: "./examples/go-redisd/server", tmpl: "store_glob_replay_test.go.txt"}
 	}
 	if fn.Pkg != nil && fn.Pkg.Pkg.Name() == "auth" {
 		return &replayRecipe{kind: "request", pkgDir: "./redis", tmpl: "redis_replay_test.go.txt", command: "PING", password: true}
@@ -643,6 +652,9 @@ func TryReplay(p *Program, o *Obligation, opts SolveOpts) map[string]any {
 			sp["password"] = "s3cret"
 		}
 		spec = sp
+	case "roundtrip":
+		info = map[string]any{"portfolio": "fixed family of value trees (all byte values in line and bulk payloads, null/empty, multi-digit lengths, nested and empty arrays) x 6 chunkings (no solver model: the obligation is quantified)"}
+		spec = map[string]any{}
 	case "glob":
 		info = map[string]any{"portfolio": "all patterns up to length 3 and keys up to length 4 over the property's alphabet (no solver model: the obligation is quantified)"}
 		spec = map[string]any{}
@@ -678,11 +690,17 @@ func TryReplay(p *Program, o *Obligation, opts SolveOpts) map[string]any {
 			res["observed"] = fmt.Sprintf("%s on the real code (%v) %v", oc, outcomeKey(m), m["panic"])
 			return res
 		}
-		if fmt.Sprint(m["scenario"]) == "glob" || fmt.Sprint(m["scenario"]) == "scan-match" {
+		if fmt.Sprint(m["scenario"]) == "roundtrip" && oc != "agree" {
+			o.Reproduced = true
+			res["result"] = "reproduced"
+			res["observed"] = fmt.Sprintf("round trip fails on the real code: %v", m)
+			return res
+		}
+		if sc := fmt.Sprint(m["scenario"]); sc == "glob" || sc == "scan-match" || sc == "store-glob" {
 			if oc == "mismatch" || oc == "compile-error" {
 				o.Reproduced = true
 				res["result"] = "reproduced"
-				res["observed"] = fmt.Sprintf("%v on the real code: pattern %q key %q matched=%v, a Redis glob gives %v %v", oc, m["pattern"], m["key"], m["got"], m["want"], m["err"])
+				res["observed"] = fmt.Sprintf("%v on the real code: %v pattern %q key %q got=%v, a Redis glob gives %v %v", oc, m["command"], m["pattern"], m["key"], m["got"], m["want"], m["err"])
 				return res
 			}
 		}
@@ -745,6 +763,20 @@ func TryReplay(p *Program, o *Obligation, opts SolveOpts) map[string]any {
 		} else {
 			res["baseline"] = "unavailable: " + err.Error()
 		}
+	}
+	if r.alsoRoundTrip {
+		r2 := &replayRecipe{kind: "roundtrip", pkgDir: "./redis/proto", tmpl: "roundtrip_replay_test.go.txt"}
+		rt := runReplay(repoDir(), r2, map[string]any{})
+		for _, m := range rt.Lines {
+			if fmt.Sprint(m["scenario"]) == "roundtrip" && fmt.Sprint(m["outcome"]) != "agree" {
+				o.Reproduced = true
+				res["result"] = "reproduced"
+				res["recipe"] = "stream + roundtrip portfolio"
+				res["observed"] = fmt.Sprintf("round trip fails on the real code: %v", m)
+				return res
+			}
+		}
+		res["roundtrip_portfolio"] = rt.Lines
 	}
 	res["reason"] = "the candidate input did not misbehave on the real code"
 	return res
